@@ -58,6 +58,18 @@ func scenarioAffinity() int {
 		}
 		return n
 	}
+	// per UDP backend a second socket on an ephemeral port of the same address
+	altSock := map[int][]*wire.UDPEndpoint{}
+	for si, sv := range w.Svcs {
+		for k, e := range sv.BeUDP {
+			a, err := w.Net.UDP(fmt.Sprintf("be%d.%d/alt", si, k+1), e.IP()+":0")
+			if err != nil {
+				fmt.Println("HARNESS-ERROR", err)
+				return 2
+			}
+			altSock[si] = append(altSock[si], a)
+		}
+	}
 	nsched := *flagCases
 	if nsched == 0 {
 		nsched = ev.Pick(150, 1200)
@@ -102,7 +114,17 @@ func scenarioAffinity() int {
 				if !sameSentBy {
 					sb = sentBys[g.R.Intn(len(sentBys))]
 				}
-				txns = append(txns, &afTxn{id: fmt.Sprintf("t%d", seq), conn: c, sentBy: sb, method: []string{"INVITE", "OPTIONS", "MESSAGE", "INFO", "REGISTER"}[g.R.Intn(5)], nprov: g.R.Intn(3)})
+				tx := &afTxn{id: fmt.Sprintf("t%d", seq), conn: c, sentBy: sb, method: []string{"INVITE", "OPTIONS", "MESSAGE", "INFO", "REGISTER"}[g.R.Intn(5)], nprov: g.R.Intn(3)}
+				txns = append(txns, tx)
+				if g.R.Intn(4) == 0 {
+					// a second transaction whose branch merely extends this one's (pairwise distinct,
+					// but one is a prefix of the other), same method, same announced address
+					oc := c
+					if g.R.Intn(2) == 0 {
+						oc = g.R.Intn(len(conns))
+					}
+					txns = append(txns, &afTxn{id: tx.id + "x", conn: oc, sentBy: sb, method: tx.method, nprov: 1 + g.R.Intn(2)})
+				}
 			}
 		}
 		// step-by-step execution of a random linear extension
@@ -169,9 +191,14 @@ func scenarioAffinity() int {
 				}
 				resp.Headers = append(resp.Headers, sip.Header{Name: "X-Vf", Value: rid}, sip.Header{Name: "Content-Length", Value: "0"})
 				if t.reqObs.Proto == "udp" {
-					for _, e := range sv.BeUDP {
+					for k, e := range sv.BeUDP {
 						if e.Name == t.reqObs.Ep {
-							e.Send(fmt.Sprintf("%s:%d", sv.IP, sv.UDP), resp.Bytes(), rid)
+							if g.R.Intn(4) == 0 && altSock[sidx] != nil && altSock[sidx][k] != nil {
+								// the backend answers from another source port than it listens on
+								altSock[sidx][k].Send(fmt.Sprintf("%s:%d", sv.IP, sv.UDP), resp.Bytes(), rid)
+							} else {
+								e.Send(fmt.Sprintf("%s:%d", sv.IP, sv.UDP), resp.Bytes(), rid)
+							}
 						}
 					}
 				} else {
